@@ -825,6 +825,7 @@ class Sym:
             o = self.block(st.body, env, path, loops)
             body_env = o.env
             rets = [o.ret] if o.ret is not None else []
+            handler_rets: list = []
             outs = []
             if body_env is not None:
                 if st.orelse:
@@ -845,14 +846,17 @@ class Sym:
                     he[h.name] = ("caught", exc_t)
                 hp = mk_and([path, ("caught", exc_t)])
                 oh = self.block(h.body, he, hp, loops)
-                if oh.ret is not None:
-                    rets.append(("onexc", exc_t, oh.ret))
+                if oh.ret is not None and not (oh.ret[0] == "raise" and oh.env is None):
+                    # a handler that only raises yields no value: it stays in the log as a 'raise' entry
+                    handler_rets.append(("onexc", exc_t, oh.ret))
                 if oh.env is not None:
                     outs.append((("caught", exc_t), oh.env))
             ret = None
-            if rets:
-                ret = rets[0]
-                for r in rets[1:]:
+            if rets or handler_rets:
+                ret = FALL
+                for r in rets:
+                    ret = r if ret == FALL else self._fill(ret, r)
+                for r in handler_rets:
                     ret = ("alt", ret, r)
             if not outs:
                 final_env = None
